@@ -1,5 +1,6 @@
 SPECIFICATION GenSpec
-CONSTANTS Kinds = {"buf", "hmeta", "reply", "rawdata", "stream", "outlocal", "outremote", "iterfile", "geninfo", "metabuf", "cxxref", "bare"}
+CONSTANTS Kinds = {"buf", "hmeta", "reply", "rawdata", "stream", "outlocal", "outremote", "iterfile", "geninfo", "metabuf", "metanew", "cxxref", "bare"}
+  TextLens = {0, 1, 249, 250, 254, 255, 256, 1000}
   NH = 2 NObj = 2 Max = 20 MaxExtra = 1 MaxTries = 1 AsFound = FALSE
 CONSTRAINT NarrowGap
 VIEW Skel
